@@ -1100,7 +1100,7 @@ def build_spec(g):
            extra_strict=["self.nPipes", "self.r_in", "self.h_f", "self.r_out", "self.pipe.k"])
     g.func(B, "CoaxialPipe.concentric_tube_volumes", coqname="concentric_tube_volumes", rettype="tuple", abstract=ab, no_abstract_params=True,
            ptypes={"self_r_inner": "Q * Q", "self_r_outer": "Q * Q", "self_pipe_k": "list Q"},
-           extra_strict=["self.r_inner", "self.r_outer", "self.h_f_a_in", "self.pipe.k"])
+           extra_strict=["self.r_inner", "self.r_outer", "self.h_f_a_out", "self.pipe.k"])
     EQ = "GHEDesignerBoreholeWithMultiplePipes.equivalent_single_u_tube"
     g.assign_expr(B, EQ, "n", "eq_n", [])
     g.assign_expr(B, EQ, "r_p_i_prime", "eq_r_in", ["vol_fluid", "n"], abstract=ab)
